@@ -20,6 +20,7 @@ def check(fb, ctx):
     ctx.floor("payload generators", n, 7)
     chain.dispatch_rules(fb, ctx)
     chain.external_rules(fb, ctx)
+    chain.mode_selection_rules(fb, ctx)
     chain.primitive_rules(fb, ctx)
     chain.decode_gates(fb, ctx)
     ctx.not_decided = ["cryptographic unforgeability of the signature schemes", "that no other byte string verifies (protobuf canonicity)", "behaviour of user RootKeyProvider implementations"]
